@@ -119,7 +119,7 @@ fn check_product(a: &[i64], b: &[i64], what: &str, rep: &mut Report) {
 }
 
 pub fn accuracy(ctx: &Ctx, rep: &mut Report) {
-    let nrand = ctx.sz(2500, 60_000);
+    let nrand = ctx.sz(2500, 250_000);
     let r = par_for(10, ncpu(), |k, rep| {
         let n = 2usize << k;
         let mut rng = rng_for(ctx.seed, &format!("c13-{}", n));
